@@ -9,7 +9,6 @@ import (
 
 	"github.com/bronlabs/bron-crypto/pkg/base/algebra"
 	ds "github.com/bronlabs/bron-crypto/pkg/base/datastructures"
-	"github.com/bronlabs/bron-crypto/pkg/base/datastructures/bitset"
 	"github.com/bronlabs/bron-crypto/pkg/base/datastructures/hashset"
 	"github.com/bronlabs/bron-crypto/pkg/base/mat"
 	"github.com/bronlabs/bron-crypto/pkg/base/utils/sliceutils"
@@ -179,10 +178,15 @@ func InducedMSP[E algebra.PrimeFieldElement[E]](f algebra.PrimeField[E], c *CNF)
 	// verification in protocols that independently reconstruct the MSP
 	// (e.g. Gennaro DKG over KW).
 	sortedMUS := slices.Clone(c.maximalUnqualifiedSets)
+	// The order is that of the sets read as bit masks (bit id-1 per member), computed on the
+	// descending member lists so that shareholder IDs above 64 do not overflow a machine word.
+	descending := func(s ds.Set[ID]) []ID {
+		ids := s.List()
+		slices.SortFunc(ids, func(x, y ID) int { return cmp.Compare(y, x) })
+		return ids
+	}
 	slices.SortFunc(sortedMUS, func(a, b ds.Set[ID]) int {
-		ba := bitset.NewImmutableBitSet(a.List()...)
-		bb := bitset.NewImmutableBitSet(b.List()...)
-		return cmp.Compare(uint64(ba), uint64(bb))
+		return slices.Compare(descending(a), descending(b))
 	})
 
 	m := len(sortedMUS)
